@@ -225,7 +225,13 @@ fn kv_result(op: &KeyValueOperation, seed: u64) -> KeyValueResult {
     } }
 }
 
-fn replay(hist: &[Step]) -> ReplayOut {
+/// run one call into the core on the calling thread, or on a thread of its own (joined at once): the thread
+/// a shell happens to deliver an input on is not part of the history, so it must not show in the output
+fn on<T: Send>(threaded: bool, f: impl FnOnce() -> T + Send) -> T {
+    if threaded { std::thread::scope(|s| s.spawn(f).join().expect("call panicked")) } else { f() }
+}
+fn replay(hist: &[Step]) -> ReplayOut { replay_on(hist, false) }
+fn replay_on(hist: &[Step], threaded: bool) -> ReplayOut {
     let core: Core<App> = Core::new();
     let mut ren = Renumber::default();
     let mut out = ReplayOut { bytes: vec![], typed: vec![] };
@@ -247,11 +253,12 @@ fn replay(hist: &[Step]) -> ReplayOut {
     };
     for st in hist {
         match st {
-            Step::Event { ops } => { let effs = core.process_event(Event::Go(serde_json::to_string(ops).unwrap())); take(effs, &mut pending, &mut out); }
+            Step::Event { ops } => { let ev = Event::Go(serde_json::to_string(ops).unwrap()); let effs = on(threaded, || core.process_event(ev)); take(effs, &mut pending, &mut out); }
             Step::Resolve { k, seed } => {
                 if pending.is_empty() { take(vec![], &mut pending, &mut out); continue; }
                 let mut e = pending.remove((*k % pending.len() as u64) as usize);
-                let effs = match &mut e {
+                let core = &core;
+                let effs = on(threaded, move || match &mut e {
                     Effect::Http(r) => core.resolve(r, http_result(*seed)),
                     Effect::KeyValue(r) => { let res = kv_result(&r.operation, *seed); core.resolve(r, res) }
                     Effect::Time(r) => {
@@ -264,10 +271,10 @@ fn replay(hist: &[Step]) -> ReplayOut {
                         core.resolve(r, resp)
                     }
                     Effect::Render(r) => core.resolve(r, ()),
-                }.expect("resolve");
+                }).expect("resolve");
                 take(effs, &mut pending, &mut out);
             }
-            Step::View => { take(vec![], &mut pending, &mut out); out.bytes.push(0xEE); out.bytes.extend(bincode::serialize(&core.view()).unwrap()); }
+            Step::View => { take(vec![], &mut pending, &mut out); out.bytes.push(0xEE); out.bytes.extend(bincode::serialize(&on(threaded, || core.view())).unwrap()); }
         }
     }
     out.bytes.push(0xEF);
@@ -605,7 +612,7 @@ fn main() {
         }).collect();
         for (i, h) in hs.iter().enumerate() {
             let first = replay(h);
-            let mut runs = vec![first.bytes.clone(), replay(h).bytes, replay(h).bytes];
+            let mut runs = vec![first.bytes.clone(), replay(h).bytes, replay_on(h, true).bytes];
             for k in 0..kids.len() { runs.push(kid_part(&kids, k, i, 0)); }
             let bridge: Vec<Vec<u8>> = (0..kids.len()).map(|k| kid_part(&kids, k, i, 1)).collect();
             println!("{}", report(h, &runs, &bridge, &first, "replay"));
@@ -620,7 +627,7 @@ fn main() {
     let kids: Vec<Vec<String>> = (0..2).map(|_| child_lines(seed, count)).collect();
     for (i, h) in hs.iter().enumerate() {
         let first = replay(h);
-        let mut runs = vec![first.bytes.clone(), replay(h).bytes, replay(h).bytes];
+        let mut runs = vec![first.bytes.clone(), replay(h).bytes, replay_on(h, true).bytes];
         for k in 0..kids.len() { runs.push(kid_part(&kids, k, i, 0)); }
         let bridge: Vec<Vec<u8>> = (0..kids.len()).map(|k| kid_part(&kids, k, i, 1)).collect();
         println!("{}", report(h, &runs, &bridge, &first, "generated"));
